@@ -25,6 +25,15 @@ C integer semantics (host: LP64, gcc, two's complement), made explicit in the ou
   * helper meanings (`u32`, `s64`, `band`, `sbor`, `subLoop`, ...) are in lean/Pixman/Lemmas/CSem.lean.
 A function with `assert`s gets a companion `<name>_ok : Bool` (all assertions reached hold).
 
+Wave 2 additions: mode "mixed" (unsigned C types are Lean `Nat`, signed ones `Int`; conversions between them are
+`Int.ofNat` / `Int.toNat (uN ..)`); `switch` (desugared to an if-chain; fall-through duplicates the following case;
+`if (c) break;` inside a case becomes `if (c) {} else {rest}`); memory operands given as access paths
+(`image->common.transform->matrix[2][0]`) whose C type is resolved through the struct/union definitions of the
+preprocessed text and must equal the type declared in TARGETS ("ptr": only NULL tests; "bool": an uninterpreted 0/1
+sub-expression such as a `double` comparison; `name@i`: indexed by the variable of a search loop); local pointer
+aliases (`T (*t)[3] = path;`); search loops `for (i = 0; i < n; ++i) if (C(i)) { S; break; }` (= `if (anyBelow n C) S`);
+`stages`: every if/switch join becomes its own definition `<name>_sN`, so that bridges can be proved join by join.
+
 Fail closed: a directive, type, token, statement or expression form that is not understood, a
 target that is not found, a variable read before it is assigned -- all exit non-zero (the engine
 reports a broken extraction obligation)."""
@@ -66,6 +75,7 @@ def fail(msg):
 #   xmacros  True                       keep the macros of pixman-combine32.h that gen_combine32.py translates
 #                                        as calls of Pixman.Gen.Combine32Macros (nat mode)
 #   out kind "in"                       pointer parameter that is only read
+#   stages   True                       every if/switch join becomes its own definition <name>_sN
 #   consts   {param: value}             specialise an integer parameter to a constant (e.g. the depth n)
 #   nonnull  [pointer params]           `if (p)` on these is TRUE (caller always passes an address)
 TARGETS = [
@@ -101,6 +111,8 @@ TARGETS = [
     dict(file="pixman/pixman-utils.c", func="pixman_malloc_ab_plus_c", mode="int", ret="malloc"),
     # ---- pixman.c, pixman-glyph.c
     dict(file="pixman/pixman.c", func="color_to_uint32", mode="nat", structs={"color": "pixman_color_t"}),
+    dict(file="pixman/pixman.c", func="color_to_pixel", mode="nat", structs={"color": "pixman_color_t"},
+         out={"pixel": "inout"}),
     dict(file="pixman/pixman-glyph.c", func="hash", name="glyph_hash", mode="nat", ptrvals=["font_key", "glyph_key"]),
 ]
 
@@ -138,6 +150,36 @@ def c32_targets():
 
 
 TARGETS += c32_targets()
+
+def image_info_target():
+    mem = {"image->common.transform": ("transform", "ptr")}
+    for i in range(3):
+        for j in range(3):
+            mem[f"image->common.transform->matrix[{i}][{j}]"] = (f"t{i}{j}", "pixman_fixed_t")
+    mem.update({
+        "image->common.filter": ("filter", "pixman_filter_t"),
+        "image->common.repeat": ("repeat_", "pixman_repeat_t"),
+        "image->common.component_alpha": ("component_alpha", "pixman_bool_t"),
+        "image->type": ("itype", "image_type_t"),
+        "image->solid.color.alpha": ("solid_alpha", "uint16_t"),
+        "image->bits.width": ("width", "int"),
+        "image->bits.height": ("height", "int"),
+        "image->bits.format": ("format", "pixman_format_code_t"),
+        "image->bits.read_func": ("read_func", "ptr"),
+        "image->bits.write_func": ("write_func", "ptr"),
+        "image->radial.a >= 0": ("radial_a_nonneg", "bool"),
+        "image->gradient.n_stops": ("n_stops", "int"),
+        "image->gradient.stops[i].color.alpha": ("stop_alpha@i", "uint16_t"),
+        "image->common.alpha_map": ("alpha_map", "ptr"),
+        "image->common.alpha_map->format": ("alpha_map_format", "pixman_format_code_t"),
+        "image->common.flags": ("flags_out", "uint32_t"),
+        "image->common.extended_format_code": ("code_out", "pixman_format_code_t"),
+    })
+    return dict(file="pixman/pixman-image.c", func="compute_image_info", mode="mixed", drop=["image"], mem=mem,
+                stages=True)
+
+
+TARGETS.append(image_info_target())
 
 LEAN_KEYWORDS = {"at", "from", "end", "open", "show", "have", "fun", "let", "then", "do", "in", "if", "else", "by",
                  "at", "with", "match", "where", "for", "def", "theorem", "instance", "structure", "class", "namespace",
@@ -355,8 +397,9 @@ class Env:
                     self.enum_of.setdefault(nm, body)
         self.enum_cache = {}
         self.structs = {}
-        for m in re.finditer(r"\bstruct\s+(\w+)\s*\{([^{}]*)\}", text):
+        for m in re.finditer(r"\b(?:struct|union)\s+(\w+)\s*\{([^{}]*)\}", text):
             self.structs.setdefault(m.group(1), m.group(2))
+        self.fields2_cache = {}
 
     def enum_values(self, body):
         if body in self.enum_cache:
@@ -392,7 +435,7 @@ class Env:
         return INT if any(v < 0 for v in vals.values()) else UINT
 
     def is_type_start(self, name):
-        return name in TYPE_WORDS or name in QUALS or name in ("struct", "enum", "void") or name in self.typedefs \
+        return name in TYPE_WORDS or name in QUALS or name in ("struct", "union", "enum", "void", "double", "float") or name in self.typedefs \
             or name in self.enum_types
 
     def resolve(self, words, depth=0):
@@ -402,10 +445,12 @@ class Env:
         ws = [w for w in words if w not in QUALS]
         if ws == ["void"]:
             return ("void",)
+        if ws in (["double"], ["float"]):
+            return ("float",)
         bt = builtin_type(ws)
         if bt:
             return bt
-        if len(ws) == 2 and ws[0] == "struct":
+        if len(ws) == 2 and ws[0] in ("struct", "union"):
             return ("struct", ws[1])
         if len(ws) == 2 and ws[0] == "enum":
             if "enum " + ws[1] in self.enum_types:
@@ -417,6 +462,83 @@ class Env:
             if ws[0] in self.typedefs:
                 return self.resolve(self.typedefs[ws[0]].split(), depth + 1)
         fail(f"unknown type {' '.join(words)!r}")
+
+    def fields2(self, tag):
+        """members of struct/union `tag`: name -> (type, nptr, ndims) (None for members not understood)"""
+        if tag in self.fields2_cache:
+            return self.fields2_cache[tag]
+        if tag not in self.structs:
+            fail(f"struct/union {tag} has no visible definition")
+        out = {}
+        for decl in self.structs[tag].split(";"):
+            if not decl.strip():
+                continue
+            try:
+                pp = Parser(lex(decl), self)
+                t = pp.try_type()
+                if t is None:
+                    raise Fail("type")
+                ty, nptr0 = t
+                first = True
+                while True:
+                    np = nptr0 if first else 0
+                    while pp.at("op", "*"):
+                        pp.eat()
+                        np += 1
+                    nm = pp.eat("id")
+                    nd = 0
+                    while pp.at("op", "["):
+                        pp.eat()
+                        pp.expr()
+                        pp.eat("op", "]")
+                        nd += 1
+                    out[nm] = (ty, np, nd)
+                    first = False
+                    if pp.at("op", ","):
+                        pp.eat()
+                        continue
+                    break
+                if pp.i != len(pp.t):
+                    raise Fail("trailing")
+            except Fail:
+                for w in re.findall(r"[A-Za-z_]\w*", decl):
+                    out.setdefault(w, None)
+        self.fields2_cache[tag] = out
+        return out
+
+    def is_funcptr_typedef(self, name):
+        return re.search(r"\btypedef\b[^;{}]*\(\s*\*\s*" + re.escape(name) + r"\s*\)", self.text) is not None
+
+    def path_type(self, ast, roots):
+        """C type (type, nptr, ndims) of an access path built from `->`/`.`/`[]`/`*` over the parameters
+        `roots` (name -> (type, nptr)); fail closed"""
+        k = ast[0]
+        if k == "id":
+            if ast[1] not in roots:
+                fail(f"memory operand: unknown root {ast[1]}")
+            t, np = roots[ast[1]]
+            return (t, np, 0)
+        if k == "field":
+            t, np, nd = self.path_type(ast[1], roots)
+            if nd or np > 1 or not (isinstance(t, tuple) and t[0] == "struct"):
+                fail(f"memory operand: member {ast[2]} of a non-struct")
+            f = self.fields2(t[1])
+            if ast[2] not in f:
+                fail(f"memory operand: struct {t[1]} has no member {ast[2]}")
+            if f[ast[2]] is None:
+                return (("unknown",), 0, 0)
+            return f[ast[2]]
+        if k == "deref":
+            inner = ast[1]
+            if inner[0] == "bin" and inner[1] == "+":
+                inner = inner[2]
+            t, np, nd = self.path_type(inner, roots)
+            if nd:
+                return (t, np, nd - 1)
+            if np:
+                return (t, np - 1, 0)
+            fail("memory operand: dereference of a non-pointer")
+        fail(f"memory operand: unsupported access path ({k})")
 
     def struct_fields(self, tyname):
         t = self.resolve([tyname]) if isinstance(tyname, str) else tyname
@@ -470,7 +592,7 @@ class Parser:
         while self.peek()[0] == "id" and (self.env.is_type_start(self.peek()[1])):
             w = self.eat()
             words.append(w)
-            if w in ("struct", "enum"):
+            if w in ("struct", "union", "enum"):
                 words.append(self.eat("id"))
             elif w in self.env.typedefs or w in self.env.enum_types:
                 # a typedef name ends the specifier unless followed by qualifiers
@@ -652,7 +774,33 @@ class Parser:
             step = None if self.at("op", ")") else self.expr()
             self.eat("op", ")")
             return ("for", init, c, step, self.stmt())
-        if k == "id" and v in ("switch", "goto", "break", "continue", "case", "default"):
+        if k == "id" and v == "switch":
+            self.eat()
+            self.eat("op", "(")
+            e = self.expr()
+            self.eat("op", ")")
+            self.eat("op", "{")
+            items = []
+            while not self.at("op", "}"):
+                if self.at("id", "case"):
+                    self.eat()
+                    c = self.cond()
+                    self.eat("op", ":")
+                    items.append(("case", c))
+                elif self.at("id", "default"):
+                    self.eat()
+                    self.eat("op", ":")
+                    items.append(("default",))
+                else:
+                    st = self.stmt()
+                    items.extend(st[1] if st[0] == "seq" else [st])
+            self.eat("op", "}")
+            return ("switch", e, items)
+        if k == "id" and v == "break":
+            self.eat()
+            self.eat("op", ";")
+            return ("break",)
+        if k == "id" and v in ("goto", "continue", "case", "default"):
             fail(f"statement `{v}` is not supported")
         if k == "id" and v == "__verif_assert":
             self.eat()
@@ -661,7 +809,7 @@ class Parser:
             self.eat("op", ")")
             self.eat("op", ";")
             return ("assert", e)
-        if k == "id" and self.env.is_type_start(v) and not (self.peek(1) == ("op", "(") and v not in QUALS):
+        if k == "id" and self.env.is_type_start(v) and not (self.peek(1) == ("op", "(") and v not in QUALS and self.peek(2) != ("op", "*")):
             t = self.try_type()
             if t is None:
                 fail(f"declaration not understood at {v}")
@@ -672,7 +820,19 @@ class Parser:
                 while self.at("op", "*"):
                     self.eat()
                     np += 1
-                nm = self.eat("id")
+                if self.at("op", "(") and self.peek(1) == ("op", "*"):
+                    # pointer-to-array declarator `(*t)[3]`: only as an alias of an lvalue
+                    self.eat()
+                    self.eat()
+                    nm = self.eat("id")
+                    self.eat("op", ")")
+                    while self.at("op", "["):
+                        self.eat()
+                        self.eat("num")
+                        self.eat("op", "]")
+                    np += 1
+                else:
+                    nm = self.eat("id")
                 if self.at("op", "["):
                     fail(f"array declaration of {nm}")
                 init = None
@@ -805,6 +965,8 @@ class Translator:
         self.env, self.tgt = env, tgt
         self.mode = tgt.get("mode", "int")
         self.nat = self.mode == "nat"
+        if self.mode not in ("int", "nat", "mixed"):
+            fail(f"{tgt['func']}: unknown mode {self.mode}")
         self.consts = dict(consts or {})
         self.const_types = {}
         self.ptrvals = set()
@@ -816,26 +978,59 @@ class Translator:
         self.assigned = []
         self.mem = []                   # [(ast, varname)]
         self.tmp = 0
+        self.read_log = []              # names of variables read, in order
+        self.aux = []                   # auxiliary (stage) definitions: (name, text)
+        self.depth = 0                  # block nesting depth of the statement being translated
+        self.aliases = {}               # local pointer alias -> AST it stands for
+        self.mem_indexed = {}           # operand name -> loop variable it is indexed by
+        self.loopvars = {}              # C loop variable -> Lean Nat variable bound by a search loop
         self.xmacros = {}               # macros kept as calls of Pixman.Gen.Combine32Macros
         self.uses_ok = []               # _ok conjuncts from calls: filled by statement translation
 
     # ---- helpers
-    def lit(self, v):
-        if self.nat:
+    def natty(self, ty):
+        """is a value of C type ty a Lean `Nat` (else `Int`)?  nat mode: always; int mode: never;
+        mixed mode: unsigned types are `Nat`, signed types are `Int`"""
+        if self.mode == "mixed":
+            return not ty.signed
+        return self.nat
+
+    def ltype(self, ty):
+        return "Nat" if self.natty(ty) else "Int"
+
+    def lit(self, v, ty):
+        if self.natty(ty):
             if v < 0:
                 return f"NEGATIVE_CONSTANT_{-v}"       # fails the run if it survives into the output
             return str(v)
         return str(v) if v >= 0 else f"({v})"
 
     def konst(self, v, ty):
-        return E(self.lit(v), ty, const=v)
+        return E(self.lit(v, ty), ty, const=v)
 
-    def wrap_s(self, s, ty):
-        if self.nat:
+    def wrap_s(self, s, ty, src_nat=None):
+        """text of the conversion (with wrap) of `s` to ty; src_nat: is `s` a Nat term (default: as ty)"""
+        dst_nat = self.natty(ty)
+        if src_nat is None:
+            src_nat = dst_nat
+        if dst_nat:
             if ty.signed:
                 fail(f"{self.tgt['func']}: conversion to a signed type that may wrap, in nat mode")
-            return f"{atom(s)} % {ty.mod}"
+            if src_nat:
+                return f"{atom(s)} % {ty.mod}"
+            return f"Int.toNat ({ty.wrapname()} {atom(s)})"
+        if src_nat:
+            return f"{ty.wrapname()} (Int.ofNat {atom(s)})"
         return f"{ty.wrapname()} {atom(s)}"
+
+    def retype(self, e, ty):
+        """value-preserving change of C type: adjust the Lean type of the text if it differs"""
+        a, b = self.natty(e.ty), self.natty(ty)
+        if a == b:
+            return E(e.s, ty, e.lo, e.hi)
+        if a:
+            return E(f"Int.ofNat {atom(e.s)}", ty, e.lo, e.hi)
+        return E(f"Int.toNat {atom(e.s)}", ty, e.lo, e.hi)
 
     def conv(self, e, ty, explicit=False):
         """value of e converted to ty.  explicit: assignment / cast / argument / return (C converts
@@ -845,16 +1040,16 @@ class Translator:
         s = e.ty
         if ty.lo <= e.lo and e.hi <= ty.hi and (e.inrange or not explicit):
             # representable: value unchanged
-            return E(e.s, ty, e.lo, e.hi)
+            return self.retype(e, ty)
         if not explicit and ty.signed and s.signed and s.bits <= ty.bits:
             # implicit widening of a signed operand inside an expression: exact arithmetic continues
-            return E(e.s, ty, e.lo, e.hi)
+            return self.retype(e, ty)
         if self.nat and ty.signed:
             if s.signed and s.bits <= ty.bits and e.lo >= 0:
                 # exact signed arithmetic that may overflow (undefined in C): kept exact in nat mode
                 return E(e.s, ty, e.lo, e.hi)
             fail(f"{self.tgt['func']}: value of type {s} may not fit {ty} (nat mode)")
-        return E(self.wrap_s(e.s, ty), ty)
+        return E(self.wrap_s(e.s, ty, self.natty(s)), ty)
 
     # ---- variables
     def read_var(self, name):
@@ -863,6 +1058,7 @@ class Translator:
         if name not in self.defined:
             fail(f"{self.tgt['func']}: {name} is read before it is assigned")
         ty = self.vars[name]
+        self.read_log.append(name)
         if name in self.varrange:
             lo, hi = self.varrange[name]
             return E(lname(name), ty, max(lo, ty.lo), min(hi, ty.hi))
@@ -870,8 +1066,24 @@ class Translator:
             return E(lname(name), ty, 0, ty.hi)
         return E(lname(name), ty)
 
+    def subst(self, e):
+        """replace local pointer aliases by what they stand for"""
+        if not self.aliases or not isinstance(e, tuple) or not e or e[0] == "num":
+            return e
+        if e[0] == "id" and e[1] in self.aliases:
+            return self.aliases[e[1]]
+        return tuple(self.subst(x) if isinstance(x, tuple) else
+                     ([self.subst(y) for y in x] if isinstance(x, list) else x) for x in e)
+
+    def mem_lookup(self, e):
+        for ast, nm in self.mem:
+            if ast == e:
+                return nm
+        return None
+
     def lvalue(self, e):
         """C lvalue expression -> variable name"""
+        e = self.subst(e)
         if e[0] == "id":
             if e[1] in self.vars:
                 return e[1]
@@ -890,7 +1102,20 @@ class Translator:
 
     # ---- expressions (pure: no side effects allowed here)
     def ex(self, e):
+        e = self.subst(e)
         k = e[0]
+        if k == "lean_cond":
+            return self.boolof(e[1])
+        if k not in ("num", "id"):
+            nm = self.mem_lookup(e)
+            if nm is not None:
+                if nm in self.mem_indexed:
+                    lv = self.mem_indexed[nm]
+                    if lv not in self.loopvars:
+                        fail(f"{self.tgt['func']}: indexed operand {nm} used outside its search loop")
+                    self.read_log.append(nm)
+                    return E(f"{lname(nm)} {self.loopvars[lv]}", self.vars[nm])
+                return self.read_var(nm)
         if k == "num":
             v, suf, nondec = e[1]
             u = "u" in suf
@@ -907,6 +1132,8 @@ class Translator:
             fail(f"integer literal {v} too large")
         if k == "id":
             n = e[1]
+            if n in self.loopvars:
+                return E(f"Int.ofNat {self.loopvars[n]}" if not self.natty(INT) else self.loopvars[n], INT, 0, INT.hi)
             if n in self.ptrvals:
                 fail(f"{self.tgt['func']}: pointer {n} used other than under an integer cast")
             if n in self.vars:
@@ -973,17 +1200,17 @@ class Translator:
                     return self.konst(v, ty)
                 return self.konst(ty.wrap(v), ty)
             if ty.signed:
-                if self.nat:
+                if self.natty(ty):
                     fail(f"{self.tgt['func']}: signed negation in nat mode")
                 return E(f"-{atom(a.s)}", ty, -a.hi, -a.lo)
-            if self.nat:
+            if self.natty(ty):
                 return E(f"({ty.mod} - {atom(a.s)}) % {ty.mod}", ty)
             return E(self.wrap_s(f"-{atom(a.s)}", ty), ty)
         if op == "~":
             if a.const is not None:
                 return self.konst(ty.wrap(~a.const), ty)
             if ty.signed:
-                if self.nat:
+                if self.natty(ty):
                     fail(f"{self.tgt['func']}: ~ on a signed value in nat mode")
                 return E(f"-{atom(a.s)} - 1", ty, -a.hi - 1, -a.lo - 1)
             return E(f"{ty.mod - 1} - {atom(a.s)}", ty)
@@ -1007,13 +1234,13 @@ class Translator:
             else:
                 lo, hi = imul((a.lo, a.hi), (b.lo, b.hi))
             if ty.signed:
-                if self.nat and op == "-" and lo < 0:
+                if self.natty(ty) and op == "-" and lo < 0:
                     if getattr(self, "in_shift_count", False):
                         # a negative shift count is undefined in C: truncated subtraction
                         return E(f"{A} - {B}", ty, 0, max(hi, 0))
                     fail(f"{self.tgt['func']}: signed subtraction that may be negative, in nat mode")
                 return E(f"{A} {op} {B}", ty, lo, hi)
-            if self.nat:
+            if self.natty(ty):
                 if op == "-":
                     return E(f"({A} + {ty.mod} - {B} % {ty.mod}) % {ty.mod}", ty)
                 return E(f"({A} {op} {B}) % {ty.mod}", ty)
@@ -1026,7 +1253,7 @@ class Translator:
                 rng = (0, a.hi) if nonneg else (None, None)
             else:
                 rng = (0, min(a.hi, b.hi - 1) if b.hi > 0 else 0) if nonneg else (None, None)
-            if nonneg or self.nat:
+            if nonneg or self.natty(ty):
                 if not nonneg:
                     fail(f"{self.tgt['func']}: signed division in nat mode")
                 return E(f"{A} {op} {B}", ty, *rng)
@@ -1072,10 +1299,10 @@ class Translator:
         nonneg = a.lo >= 0 and b.lo >= 0
         if op == "&":
             for x, y in ((a, b), (b, a)):
-                if y.const is not None and y.const >= 0 and (y.const & (y.const + 1)) == 0 and not self.nat:
+                if y.const is not None and y.const >= 0 and (y.const & (y.const + 1)) == 0 and not self.natty(ty):
                     # x & (2^k - 1)  =  x mod 2^k   (two's complement, any sign of x)
                     return E(f"{atom(x.s)} % {y.const + 1}", ty, 0, y.const)
-        if op == "&" and not self.nat:
+        if op == "&" and not self.natty(ty):
             for x, y in ((a, b), (b, a)):
                 if y.const is not None:
                     low = (-y.const) if ty.signed else (ty.mod - y.const)
@@ -1088,11 +1315,11 @@ class Translator:
                 hi = min(a.hi, b.hi)
             else:
                 hi = (1 << max(a.hi.bit_length(), b.hi.bit_length())) - 1
-            if self.nat:
+            if self.natty(ty):
                 return E(f"{A} {natop} {B}", ty, 0, hi)
             fn = {"&": "band", "|": "bor", "^": "bxor"}[op]
             return E(f"{fn} {A} {B}", ty, 0, hi)
-        if self.nat:
+        if self.natty(ty):
             fail(f"{self.tgt['func']}: bitwise operator on a possibly negative value in nat mode")
         if not ty.signed:
             fail("internal: unsigned operand with negative range")
@@ -1128,7 +1355,7 @@ class Translator:
                         fail("constant shift overflows")
                     return self.konst(v, ty)
                 return self.konst(ty.wrap(v), ty)
-            if self.nat:
+            if self.natty(ty):
                 if op == ">>":
                     return E(f"{A} >>> {k}", ty, a.lo >> k, a.hi >> k)
                 if ty.signed:
@@ -1143,13 +1370,14 @@ class Translator:
         # variable count
         if b.lo < 0 and self.nat:
             fail(f"{self.tgt['func']}: shift count may be negative (nat mode)")
-        if self.nat:
+        cnt = atom(b.s) if self.natty(b.ty) else f"({b.s}).toNat"
+        if self.natty(ty):
             if op == ">>":
-                return E(f"{A} >>> {atom(b.s)}", ty, 0, a.hi)
+                return E(f"{A} >>> {cnt}", ty, 0, a.hi)
             if ty.signed:
-                return E(f"{A} <<< {atom(b.s)}", ty, a.lo, a.hi << min(b.hi, 64))
-            return E(f"({A} <<< {atom(b.s)}) % {ty.mod}", ty)
-        pw = f"2 ^ ({b.s}).toNat"
+                return E(f"{A} <<< {cnt}", ty, a.lo, a.hi << min(b.hi, 64))
+            return E(f"({A} <<< {cnt}) % {ty.mod}", ty)
+        pw = f"2 ^ {cnt}"
         if op == ">>":
             lo = min(a.lo, 0) if a.lo < 0 else 0
             return E(f"{A} / {pw}", ty, min(a.lo, 0), max(a.hi, 0))
@@ -1203,6 +1431,11 @@ class Translator:
 
     def cond(self, e):
         """C expression used as a condition -> Prop text"""
+        e = self.subst(e)
+        if e[0] == "lean_cond":
+            return e[1]
+        if self.mem_lookup(e) is not None:
+            return self.truth(self.ex(e))
         if e[0] == "bin" and e[1] in ("&&", "||"):
             a, b = self.cond(e[2]), self.cond(e[3])
             if e[1] == "&&":
@@ -1258,8 +1491,8 @@ class Translator:
     def call_value(self, e):
         name, args = e[1], e[2]
         if name in self.xmacros:
-            if not self.nat:
-                fail(f"{self.tgt['func']}: combine32 macros are available in nat mode only")
+            if not self.natty(UINT):
+                fail(f"{self.tgt['func']}: combine32 macros are available in nat / mixed mode only")
             if self.xmacros[name][3]:
                 fail(f"{self.tgt['func']}: statement macro {name} used as a value")
             ins, _ = self.xmacro_args(name, args)
@@ -1270,12 +1503,22 @@ class Translator:
         fi = self.funcs[name]
         if fi.outs:
             fail(f"{self.tgt['func']}: {name} has out-parameters; call it as a statement `x = {name} (...)`")
-        if fi.mode != self.mode:
-            fail(f"{self.tgt['func']}: {name} is translated in mode {fi.mode}")
+        self.check_callee_types(fi)
         if fi.ret is None:
             fail(f"{self.tgt['func']}: value of void function {name}")
         s = self.call_text(fi, args, {})
         return E(s, fi.ret)
+
+    def check_callee_types(self, fi):
+        """a call is possible when callee and caller give every argument/result the same Lean type"""
+        if fi.mode == self.mode:
+            return
+        for v, lt in fi.ltypes.items():
+            ct = fi.input_types.get(v) or fi.out_types.get(v)
+            if ct is not None and self.ltype(ct) != lt:
+                fail(f"{self.tgt['func']}: {fi.cname} ({fi.mode} mode) has {v} : {lt}; the caller ({self.mode} mode) needs {self.ltype(ct)}")
+        if fi.ret_ltype is not None and isinstance(fi.ret, CT) and self.ltype(fi.ret) != fi.ret_ltype:
+            fail(f"{self.tgt['func']}: {fi.cname} returns a {fi.ret_ltype}; the caller needs {self.ltype(fi.ret)}")
 
     def call_text(self, fi, args, outmap):
         """Lean application text; outmap receives out-parameter -> caller variable"""
@@ -1342,6 +1585,8 @@ class FuncInfo:
         self.out_types = {}
         self.ret = None
         self.has_ok = False
+        self.ltypes = {}
+        self.ret_ltype = None
         self.text = ""
         self.consts = {}
         self.param_outs = []
@@ -1361,7 +1606,70 @@ def contains_exit(st, ok_mode):
         return contains_exit(st[2], ok_mode) or (st[3] is not None and contains_exit(st[3], ok_mode))
     if k in ("while", "for"):
         return contains_exit(st[-1], ok_mode)
+    if k == "switch":
+        return any(contains_exit(x, ok_mode) for x in st[2] if x[0] not in ("case", "default"))
     return False
+
+
+def has_break(st):
+    """does st contain a `break` that belongs to an enclosing switch (loops keep their own)"""
+    k = st[0]
+    if k == "break":
+        return True
+    if k == "block":
+        return any(has_break(x) for x in st[1])
+    if k == "if":
+        return has_break(st[2]) or (st[3] is not None and has_break(st[3]))
+    return False
+
+
+def debreak(stmts, fn):
+    """statement list of a switch case up to its `break`; `if (c) break; REST` becomes
+    `if (c) {} else { REST }`; any other nested break fails closed"""
+    out = []
+    for i, st in enumerate(stmts):
+        if st[0] == "break":
+            return out
+        if st[0] == "if" and st[3] is None and (st[2] == ("break",) or st[2] == ("block", [("break",)])):
+            out.append(("if", st[1], ("block", []), ("block", debreak(stmts[i + 1:], fn))))
+            return out
+        if has_break(st):
+            fail(f"{fn}: `break` nested inside a switch case in an unsupported position")
+        out.append(st)
+    return out
+
+
+def desugar_switch(st, swvar, fn):
+    items = st[2]
+    if items and items[0][0] not in ("case", "default"):
+        fail(f"{fn}: statements before the first case label")
+    groups, i = [], 0
+    while i < len(items):
+        if items[i][0] in ("case", "default"):
+            labels = []
+            while i < len(items) and items[i][0] in ("case", "default"):
+                labels.append(items[i])
+                i += 1
+            groups.append((labels, i))
+        else:
+            i += 1
+    default_body, chain = None, []
+    for labels, start in groups:
+        body = debreak([x for x in items[start:] if x[0] not in ("case", "default")], fn)
+        if any(l[0] == "default" for l in labels):
+            if default_body is not None:
+                fail(f"{fn}: two default labels")
+            default_body = body
+            continue
+        c = None
+        for l in labels:
+            t = ("bin", "==", ("id", swvar), l[1])
+            c = t if c is None else ("bin", "||", c, t)
+        chain.append((c, body))
+    node = ("block", default_body if default_body is not None else [])
+    for c, body in reversed(chain):
+        node = ("if", c, ("block", body), node)
+    return node
 
 
 def has_call(e, names):
@@ -1492,7 +1800,19 @@ class Body:
         elif k == "while":
             walk_e(st[1])
             self.assigned_in(st[2], acc)
-        elif k in ("return", "assert"):
+        elif k == "for":
+            for x in st[1:4]:
+                if x is not None:
+                    walk_e(x)
+            self.assigned_in(st[4], acc)
+        elif k == "switch":
+            walk_e(st[1])
+            saved = set(self._local)
+            for x in st[2]:
+                if x[0] not in ("case", "default"):
+                    self.assigned_in(x, acc)
+            self._local = saved
+        elif k in ("return", "assert", "break"):
             pass
         else:
             fail(f"{tr.tgt['func']}: statement {k} not supported here")
@@ -1513,7 +1833,10 @@ class Body:
         fn = tr.tgt["func"]
         if kind == "block":
             saved_vars = dict(tr.vars)
+            saved_alias = dict(tr.aliases)
             inner = st[1]
+            tr.depth += 1
+            my_depth = tr.depth
 
             def after():
                 # leave scope: forget block-local declarations
@@ -1522,11 +1845,19 @@ class Body:
                         del tr.vars[v]
                         tr.defined.discard(v)
                         tr.varrange.pop(v, None)
+                tr.aliases = dict(saved_alias)
+                tr.depth = my_depth - 1
                 return self.seq(rest, k)
             after.cheap = self.cheap_cont(rest, k)
             return self.seq(inner, after)
         if kind == "decl":
             (ty, nptr), nm, init = st[1], st[2], st[3]
+            if nptr and init is not None and not side_effect(init):
+                # local pointer initialised with an lvalue: an alias for that access path
+                if nm in tr.vars or nm in tr.aliases:
+                    fail(f"{fn}: local {nm} shadows another variable")
+                tr.aliases[nm] = tr.subst(init)
+                return self.seq(rest, k)
             if nptr or not isinstance(ty, CT):
                 fail(f"{fn}: declaration of {nm}: only integer locals are supported")
             if nm in tr.vars:
@@ -1575,6 +1906,46 @@ class Body:
             return self.if_stmt(st, rest, k)
         if kind == "while":
             return self.while_stmt(st, rest, k)
+        if kind == "switch":
+            if side_effect(st[1]):
+                fail(f"{fn}: side effect in a switch expression")
+            tr.tmp += 1
+            sw = f"sw{tr.tmp}"
+            ty = promote(tr.ex(st[1]).ty)
+            chain = desugar_switch(st, sw, fn)
+            return self.seq([("decl", (ty, 0), sw, st[1]), chain] + rest, k)
+        if kind == "break":
+            fail(f"{fn}: `break` outside a supported position")
+        if kind == "for" and not tr.tgt.get("loop"):
+            # search loop: `for (i = 0; i < N; ++i) if (C(i)) { S; break; }`  =  `if (exists i < N, C(i)) S`
+            init, c, step, body = st[1], st[2], st[3], st[4]
+            while body[0] == "block" and len(body[1]) == 1:
+                body = body[1][0]
+            z = ("num", (0, "", False))
+            okh = init is not None and init[0] == "assign" and init[1] == "=" and init[2][0] == "id" and init[3] == z
+            iv = init[2][1] if okh else None
+            okh = okh and c is not None and c[0] == "bin" and c[1] == "<" and c[2] == ("id", iv) and \
+                step in (("preinc", "+", ("id", iv)), ("postinc", "+", ("id", iv)))
+            if not okh or iv not in tr.vars or tr.vars[iv] != INT:
+                fail(f"{fn}: for loop is not a supported search loop")
+            if not (body[0] == "if" and body[3] is None and body[2][0] == "block" and body[2][1] and
+                    body[2][1][-1] == ("break",) and not any(has_break(x) for x in body[2][1][:-1])):
+                fail(f"{fn}: for loop is not a supported search loop")
+            S = body[2][1][:-1]
+            if side_effect(c[3]) or side_effect(body[1]) or mentions(c[3], ("id", iv)) or \
+                    any(mentions(x, ("id", iv)) for x in S):
+                fail(f"{fn}: for loop is not a supported search loop")
+            bound = tr.conv(tr.ex(c[3]), INT)
+            bnd = bound.s if not tr.natty(INT) else f"Int.ofNat {atom(bound.s)}"
+            lv = iv + "_n"
+            tr.loopvars[iv] = lv
+            try:
+                ctext = tr.cond(body[1])
+            finally:
+                del tr.loopvars[iv]
+            tr.defined.discard(iv)
+            lc = ("lean_cond", f"anyBelow {atom(bnd)} (fun {lv} => decide ({ctext})) = true")
+            return self.seq([("if", lc, ("block", S), None)] + rest, k)
         if kind == "for":
             # `for (i = 0; i < width; ++i) BODY` over independent pixels: translate BODY, with the
             # memory operands of the target's `mem` map as variables
@@ -1656,8 +2027,8 @@ class Body:
             val = tr.conv(tr.binary(e[1], cur, tr.konst(1, INT)), ty, explicit=True)
             return self.bind(v, val.s, rest, k, mark)
         if e[0] == "call" and e[1] in tr.xmacros:
-            if not tr.nat:
-                fail(f"{fn}: combine32 macros are available in nat mode only")
+            if not tr.natty(UINT):
+                fail(f"{fn}: combine32 macros are available in nat / mixed mode only")
             if not tr.xmacros[e[1]][3]:
                 fail(f"{fn}: expression macro {e[1]} used as a statement")
             ins, outs = tr.xmacro_args(e[1], e[2])
@@ -1685,8 +2056,7 @@ class Body:
         tr = self.tr
         fn = tr.tgt["func"]
         fi = tr.funcs[tr.tgt.get("calls", {}).get(call[1], call[1])]
-        if fi.mode != tr.mode:
-            fail(f"{fn}: {fi.cname} is translated in mode {fi.mode}")
+        tr.check_callee_types(fi)
         mark = len(tr.uses_ok)
         outmap = {}
         app = tr.call_text(fi, call[2], outmap)
@@ -1776,6 +2146,8 @@ class Body:
             pre, c2 = h
             return self.seq(pre + [("if", c2, A, B)] + rest, k)
         mark = len(tr.uses_ok)
+        rmark = len(tr.read_log)
+        if_depth = tr.depth
         cs = tr.cond(c)
         if cs in ("True", "False"):
             chosen = A if cs == "True" else B
@@ -1829,6 +2201,7 @@ class Body:
         tup.cheap = True
         okmark = len(tr.uses_ok)
         tmp0 = tr.tmp
+        aux0 = len(tr.aux)
         while True:
             # a variable without a value before the `if` that only one branch assigns is dead after
             # the join (a later read fails as "read before it is assigned"): leave it out of the join
@@ -1843,6 +2216,7 @@ class Body:
             except UndefInJoin as u:
                 restore()
                 tr.tmp = tmp0
+                del tr.aux[aux0:]
                 del tr.uses_ok[okmark:]
                 W.remove(u.args[0])
                 if not W:
@@ -1854,12 +2228,30 @@ class Body:
                 if v not in tr.assigned:
                     tr.assigned.append(v)
         ta, tb = peep(ta), peep(tb)
+        tr.depth = if_depth
+        joined = f"if {cs} then\n{self.ind(ta, 4)}\n  else\n{self.ind(tb, 4)}"
+        if tr.tgt.get("stages") and not self.ok:
+            # top-level join of a staged function: its own definition (proof modularity)
+            ins = []
+            for n_ in tr.read_log[rmark:]:
+                if n_ in state[1] and n_ not in ins:
+                    ins.append(n_)
+            sname = f"{lname(tr.tgt.get('name', tr.tgt['func']))}_s{len(tr.aux) + 1}"
+
+            def aty(v):
+                return ("Nat → " if v in tr.mem_indexed else "") + tr.ltype(state[0][v])
+            sargs = " ".join(f"({lname(v)} : {aty(v)})" for v in ins)
+            srty = " × ".join(tr.ltype(state[0][v]) for v in W)
+            body_s = f"if {cs} then\n{self.ind(ta, 2)}\nelse\n{self.ind(tb, 2)}"
+            tr.aux.append((sname, f"/-- stage {len(tr.aux) + 1} of `{tr.tgt['func']}`: new value of "
+                                  f"({', '.join(W)}) -/\ndef {sname} {sargs} : {srty} :=\n{self.ind(body_s)}\n"))
+            joined = f"{sname} " + " ".join(lname(v) for v in ins)
         if len(W) == 1:
-            head = f"let {lname(W[0])} := if {cs} then\n{self.ind(ta, 4)}\n  else\n{self.ind(tb, 4)}"
+            head = f"let {lname(W[0])} := {joined}"
         else:
             tr.tmp += 1
             t = f"j{tr.tmp}"
-            head = f"let {t} := if {cs} then\n{self.ind(ta, 4)}\n  else\n{self.ind(tb, 4)}"
+            head = f"let {t} := {joined}"
             n = len(W)
             for idx, v in enumerate(W):
                 proj = t + "".join(".2" for _ in range(idx)) + (".1" if idx < n - 1 else "")
@@ -1879,7 +2271,7 @@ class Body:
             fail(f"{fn}: while loop is not one of the two supported forms")
         op, lhs, rhs = body[1][1], body[1][2], body[1][3]
         x = tr.lvalue(lhs)
-        if tr.nat:
+        if tr.natty(INT):
             fail(f"{fn}: while loop in nat mode")
         if tr.vars[x] != INT:
             fail(f"{fn}: loop variable must be an int")
@@ -2028,9 +2420,45 @@ def translate_function(env, tgt, funcs):
             ast = pp.expr()
             if pp.i != len(pp.t):
                 fail(f"{name}: memory operand {cexpr!r} not understood")
+            indexed = None
+            if isinstance(nm, tuple):
+                nm, tyname = nm[0], nm[1]
+                roots = {pn: (pt, pnp) for pn, pt, pnp in params}
+                if tyname == "ptr":
+                    t = env.path_type(ast, roots)
+                    okp = (t[1] >= 1 and t[2] == 0) or \
+                          (t[1] == 0 and t[2] == 0 and t[0] == ("unknown",))
+                    if t[0] == ("unknown",):
+                        # member whose declaration is a function-pointer typedef
+                        fld = ast[2] if ast[0] == "field" else None
+                        decl_ok = False
+                        if fld is not None:
+                            st = env.path_type(ast[1], roots)
+                            body = env.structs.get(st[0][1], "") if isinstance(st[0], tuple) and st[0][0] == "struct" else ""
+                            mm = re.search(r"(\w+)\s+" + re.escape(fld) + r"\s*(?:;|$)", body)
+                            decl_ok = bool(mm) and env.is_funcptr_typedef(mm.group(1))
+                        okp = decl_ok
+                    if not okp:
+                        fail(f"{name}: memory operand {cexpr!r} is not a pointer")
+                    cty = ULONG
+                elif tyname == "bool":
+                    cty = INT       # a whole sub-expression the translator does not interpret; 0/1
+                else:
+                    cty = env.resolve(tyname.split())
+                    if not isinstance(cty, CT):
+                        fail(f"{name}: type {tyname} of memory operand {cexpr!r} is not an integer type")
+                    t = env.path_type(ast, roots)
+                    if t[1] or t[2] or t[0] != cty:
+                        fail(f"{name}: memory operand {cexpr!r} has C type {t}, not {tyname}")
+                if len(nm.split("@")) == 2:
+                    nm, indexed = nm.split("@")
+            else:
+                cty = UINT
             tr.mem.append((ast, nm))
-            tr.vars[nm] = UINT
+            tr.vars[nm] = cty
             tr.defined.add(nm)
+            if indexed:
+                tr.mem_indexed[nm] = indexed
         tr.xmacros = tgt.get("_xmacros", {})
         return cparams
 
@@ -2093,7 +2521,7 @@ def translate_function(env, tgt, funcs):
                 if v.startswith(nm + "_") and lname(v) in used and v not in inputs:
                     inputs.append(v)
     for _, nm in tr.mem:
-        if lname(nm) in used:
+        if lname(nm) in used and nm in tr.read_log:
             inputs.append(nm)
     oktext = None
     if has_assert:
@@ -2111,17 +2539,23 @@ def translate_function(env, tgt, funcs):
     fi.out_types = {v: param_vars[v] for v in final_outs}
     fi.ret = ret
     fi.has_ok = has_assert
-    T = "Nat" if fi.mode == "nat" else "Int"
-    nres = (2 if ret == "malloc" else 1 if ret is not None else 0) + len(final_outs)
-    rty = " × ".join([T] * nres)
-    args = " ".join(f"({lname(v)} : {T})" for v in inputs)
+    rtypes = (["Int", "Int"] if ret == "malloc" else [tr.ltype(ret)] if ret is not None else []) + \
+             [tr.ltype(param_vars[o]) for o in final_outs]
+    if ret == "malloc" and fi.mode != "int":
+        fail(f"{name}: malloc-returning functions are translated in int mode")
+    rty = " × ".join(rtypes)
+    def argty(v):
+        return ("Nat → " if v in tr.mem_indexed else "") + tr.ltype(param_vars[v])
+    args = " ".join(f"({lname(v)} : {argty(v)})" for v in inputs)
+    fi.ltypes = {v: tr.ltype(param_vars[v]) for v in list(inputs) + list(final_outs)}
+    fi.ret_ltype = None if ret is None or ret == "malloc" else tr.ltype(ret)
     sig_c = ", ".join([f"{v} : {param_vars[v].cname()}" for v in inputs] +
                       [f"{c} = {v} (specialised)" for c, v in tgt.get("consts", {}).items()])
     res_c = ", ".join((["malloc called : 0/1, size : uint64_t"] if ret == "malloc" else [f"return : {ret.cname()}"] if ret is not None else []) + [f"{o} : {param_vars[o].cname()}" for o in final_outs])
     pre = "".join(f"  Precondition: {v} >= 0." for v in tgt.get("nonneg", [])) + \
           "".join(f"  Precondition: {lo} <= {v} <= {hi}." for v, (lo, hi) in tgt.get("ranges", {}).items())
     doc = f"/-- `{tgt['file']}:{name}` ({fi.mode} mode).  Arguments: {sig_c}.  Result: ({res_c}).{pre} -/"
-    out = f"{doc}\ndef {fi.lean} {args} : {rty} :=\n{Body.ind(None, text)}\n"
+    out = "".join(t + "\n" for _, t in tr.aux) + f"{doc}\ndef {fi.lean} {args} : {rty} :=\n{Body.ind(None, text)}\n"
     if has_assert:
         out += f"\n/-- every `assert` reached by `{name}` holds (`false` = the C function aborts) -/\n" \
                f"def {fi.lean}_ok {args} : Bool :=\n{Body.ind(None, oktext)}\n"
